@@ -7,7 +7,15 @@ LE = [1108, 1101]
 
 
 def pos_calls(c):
-    """constructor calls for one positional case -> list of (label, call, histogram?)"""
+    """constructor calls for one positional case -> list of (label, call, histogram?); a constant label also with an EMPTY value
+    (the name rules do not depend on the value)"""
+    out = _pos_calls(c, "a")
+    if c["pos"] == "const":
+        out += [(lab + " (empty constant-label value)", call, h) for lab, call, h in _pos_calls(c, "")]
+    return out
+
+
+def _pos_calls(c, cval):
     s = to_str(c["s"])
     fq = to_str(c["fq"])
     pos = c["pos"]
@@ -22,7 +30,7 @@ def pos_calls(c):
     elif pos == "help":
         o["help"] = s
     elif pos == "const":
-        o["const"] = [[s, "a"]]
+        o["const"] = [[s, cval]]
     if pos == "var":
         out.append(("Desc::new", {"op": "desc", "as": "x", "fq_name": "a", "help": "a", "var": [s], "const": []}, False))
         for k in ("counter_vec", "int_counter_vec", "gauge_vec", "int_gauge_vec"):
@@ -41,7 +49,14 @@ def pos_calls(c):
 
 
 def clash_calls(c):
-    cs = [[to_str(n), "a"] for n in c["cset"]]
+    out = _clash_calls(c, "a")
+    if c["cset"]:
+        out += [(lab + " (empty constant-label values)", call, h) for lab, call, h in _clash_calls(c, "")]
+    return out
+
+
+def _clash_calls(c, cval):
+    cs = [[to_str(n), cval] for n in c["cset"]]
     vs = [to_str(v) for v in c["vseq"]]
     o = {"name": "a", "help": "a", "const": cs}
     out = [("Desc::new", {"op": "desc", "as": "x", "fq_name": "a", "help": "a", "var": vs, "const": cs}, False),
@@ -122,6 +137,16 @@ def run(ctx):
         sib = [{"op": "counter", "as": "m2", "opts": {"name": "a", "help": "a", "const": [["a", "2"]]}}, {"op": "inc", "obj": "m2"}]
         add(None, [[cn, "v"]], ctr + sib + vec, ["m", "m", "m2", "v", "v", "m"], "common-label-vs-metric-label")
         add("Z", [[cn, "v"]], ctr + sib + vec, ["v", "m2", "m", "v", "m2"], "common-label-vs-metric-label")
+    # vectors with SEVERAL variable labels in every order, one of them (at every position) named like a common label; also as constant label
+    import itertools as _it
+    pool4 = ["env", "b", "a", "zone"]
+    for k in (2, 3, 4):
+        for names in _it.permutations(pool4[:k]):
+            for cn in set(names) & {"env", "a", "zone"}:
+                mv = [{"op": "gauge_vec", "as": "mv", "opts": {"name": "mv", "help": "a"}, "labels": list(names)}, {"op": "with", "vec": "mv", "vals": ["v%d" % i for i in range(k)], "as": "c0"}]
+                add(None, [[cn, "common"]], ctr + mv, ["m", "mv"], "common-label-vs-metric-label")
+                mc = [{"op": "histogram_vec", "as": "mc", "opts": {"name": "mc", "help": "a", "const": [[n, "c"] for n in names[1:]]}, "labels": [names[0]]}, {"op": "with", "vec": "mc", "vals": ["v"], "as": "c1"}]
+                add("Z", [[cn, "common"], ["other", "w"]], mc + ctr, ["mc", "m"], "common-label-vs-metric-label")
     rres = run_api(ctx, exe, rjobs, "reg")
     recs, rix = [], []
     for j, tag in zip(rjobs, rmeta):
